@@ -1,8 +1,10 @@
 #!/bin/bash
 # run_all_seeds.sh [tier] : apply each seeded change to /repo, run the check of its property, undo; record the outcome in seeded/<id>/meta.json
-T=${1:-quick}; cd /verif
-for d in seeded/*/; do
-  s=$(basename $d)
+# usage: run_all_seeds.sh [tier] [seed...]   (TRY_W selects the scratch worktree, so that two runs can share the work)
+T=${1:-quick}; shift; cd /verif
+SEEDS="$@"; [ -n "$SEEDS" ] || SEEDS=$(ls seeded)
+for s in $SEEDS; do
+  d=seeded/$s
   out=$(./tools/try_seed.sh $s $T 2>&1)
   rc=$(echo "$out" | grep -o 'rc=[0-9]*' | tail -1 | cut -d= -f2)
   first=$(echo "$out" | grep -m1 'violation in' | sed 's/^ *//' | cut -c1-300)
